@@ -22,10 +22,6 @@ def llpOrder (lls : List (List PTDP.State)) (ll : List PTDP.State) : List PTDP.S
 
 theorem llpOrder_spill (lls : List (List PTDP.State)) (ll : List PTDP.State) (n : Nat) :
     llpOrder (lls ++ [ll] ++ List.replicate n []) [] = llpOrder lls ll := by
-  have : ((List.replicate n ([] : List PTDP.State)).map List.reverse).flatten = [] := by
-    induction n with
-    | zero => rfl
-    | succ n ih => rw [List.replicate_succ, List.map_cons, List.flatten_cons, ih]; rfl
   simp [llpOrder]
 
 theorem encFold_mix (L sid : Nat) (hL : 0 < L) (qs : List PTDP.State) (hwf : ∀ q ∈ qs, PTDP_WF q) :
